@@ -132,21 +132,23 @@ pub struct HistKnobs {
     pub focus: Focus,
     pub max_ops: usize,
     pub max_clients: usize,
+    pub min_clients: usize,
     pub model: ModelKnobs,
     pub max_text: usize,
 }
 
 impl HistKnobs {
     pub fn for_focus(focus: Focus) -> Self {
-        Self { focus, max_ops: 24, max_clients: 4, model: ModelKnobs::default(), max_text: 48 }
+        Self { focus, max_ops: 24, max_clients: 4, min_clients: 1, model: ModelKnobs::default(), max_text: 48 }
     }
     pub fn miri() -> Self {
         Self {
             focus: Focus::C08,
-            max_ops: 6,
+            max_ops: 4,
             max_clients: 3,
-            model: ModelKnobs { max_window: 2, allow_big_windows: false, max_entries: 4, want_tags: None },
-            max_text: 8,
+            min_clients: 2,
+            model: ModelKnobs { max_window: 2, max_type_window: 1, core_only: true, allow_big_windows: false, max_entries: 3, want_tags: None },
+            max_text: 6,
         }
     }
 }
@@ -223,6 +225,11 @@ fn gen_update(rng: &mut Rng, k: &HistKnobs, ctor: bool) -> Op {
     }
 }
 
+/// Texts of the thread tier: a tiny alphabet shared with the tag-dense models.
+fn thread_text(rng: &mut Rng, n: usize) -> String {
+    (0..n).map(|_| *rng.pick(&['a', 'b', 'a', 'b', '1', 'あ'])).collect()
+}
+
 fn gen_filter(rng: &mut Rng) -> FilterSpec {
     match rng.below(8) {
         0..=2 => FilterSpec::WsConst(rng.range(1, 6) as u8),
@@ -268,7 +275,8 @@ pub fn gen_plan(rng: &mut Rng, k: &HistKnobs) -> HistPlan {
         6 | 7 => 2.min(k.max_clients),
         8 => 3.min(k.max_clients),
         _ => k.max_clients,
-    };
+    }
+    .max(k.min_clients);
     let mut clients = vec![];
     for _ in 0..n_clients {
         let n_ops = rng.range(1, k.max_ops);
@@ -308,6 +316,18 @@ pub fn gen_plan(rng: &mut Rng, k: &HistKnobs) -> HistPlan {
                 }),
             }
         }
+        if k.min_clients >= 2 {
+            // thread tier: several short predict segments on texts of different lengths, so that
+            // concurrent predict / fill_tags calls on the shared predictors overlap often
+            for _ in 0..2 {
+                let n = rng.range(1, k.max_text);
+                ops.push(Op::UpdateRaw { s: thread_text(rng, n), owned: rng.chance(1, 2) });
+                ops.push(Op::Predict(rng.below(preds.len())));
+                if rng.chance(1, 2) {
+                    ops.push(Op::FillTags);
+                }
+            }
+        }
         if k.focus == Focus::C08 {
             // the statement's closing segment: update_raw(x); predict; [fill_tags]
             ops.push(Op::UpdateRaw { s: clip(gen::gen_text(rng), k.max_text), owned: rng.chance(1, 2) });
@@ -317,6 +337,23 @@ pub fn gen_plan(rng: &mut Rng, k: &HistKnobs) -> HistPlan {
             }
         }
         clients.push(ops);
+    }
+    if k.min_clients >= 2 && rng.chance(1, 2) {
+        // thread tier: same program shape on every client (different texts), so that threads
+        // running in near lock-step contend for whatever the predictor might share
+        let shape = clients[0].clone();
+        for c in clients.iter_mut().skip(1) {
+            *c = shape
+                .iter()
+                .map(|op| match op {
+                    Op::UpdateRaw { owned, .. } => {
+                        let n = rng.range(1, k.max_text);
+                        Op::UpdateRaw { s: thread_text(rng, n), owned: *owned }
+                    }
+                    o => o.clone(),
+                })
+                .collect();
+        }
     }
     let total: usize = clients.iter().map(|c: &Vec<Op>| c.len()).sum();
     let interleave = (0..total).map(|_| rng.below(n_clients) as u8).collect();
@@ -1032,6 +1069,40 @@ fn linked_kind(linked: Option<usize>, plan: &HistPlan) -> u8 {
 // Thread tier: every client on its own real thread, sharing the predictors. Used under Miri,
 // whose scheduler decides every preemption from its seed.
 
+/// Cheap structural digest of the observable results (no formatting: this runs under Miri).
+fn light_digest(s: &Sentence, cands: bool) -> u64 {
+    let mut h = Fnv::default();
+    h.bytes(s.as_raw_text().as_bytes());
+    for &x in s.boundary_scores() {
+        h.u64(x as u32 as u64);
+    }
+    for &b in s.boundaries() {
+        h.bytes(&[b as u8]);
+    }
+    h.u64(s.n_tags() as u64);
+    for t in s.tags() {
+        match t {
+            Some(t) => h.str(t),
+            None => h.bytes(&[0xfe]),
+        }
+    }
+    let mut buf = String::new();
+    s.write_tokenized_text(&mut buf);
+    h.str(&buf);
+    if cands {
+        for t in s.iter_tokens() {
+            for c in t.tag_candidates() {
+                for (tag, score) in c {
+                    h.str(tag);
+                    h.u64(score as u32 as u64);
+                }
+                h.bytes(&[0xfd]);
+            }
+        }
+    }
+    h.finish()
+}
+
 fn client_trace(ops: &[Op], plan: &HistPlan, preds: &[Predictor]) -> Vec<u64> {
     let mut out = vec![];
     let mut s = Sentence::default();
@@ -1085,44 +1156,42 @@ fn client_trace(ops: &[Op], plan: &HistPlan, preds: &[Predictor]) -> Vec<u64> {
                 _ => {}
             }
         }
-        let mut h = Fnv::default();
-        observe(&s, cands_ok).digest(&mut h);
-        out.push(h.finish());
+        out.push(light_digest(&s, cands_ok));
     }
     out
 }
 
-/// Serial reference first, then all clients concurrently; traces must be identical.
-pub fn execute_threaded(plan: &HistPlan, preds: &[Predictor]) -> Option<Violation> {
+/// Serial reference first, then `reps` times all clients concurrently (one real thread each,
+/// sharing the predictors); every concurrent trace must equal the serial one. Within one Miri
+/// process every repetition sees a different interleaving because the scheduler's PRNG advances.
+pub fn execute_threaded(plan: &HistPlan, preds: &[Predictor], reps: usize) -> Option<Violation> {
     let serial: Vec<Vec<u64>> = plan.clients.iter().map(|ops| client_trace(ops, plan, preds)).collect();
-    let conc: Vec<Option<Vec<u64>>> = std::thread::scope(|sc| {
-        let hs: Vec<_> = plan
-            .clients
-            .iter()
-            .map(|ops| sc.spawn(move || client_trace(ops, plan, preds)))
-            .collect();
-        hs.into_iter().map(|h| h.join().ok()).collect()
-    });
-    for (ci, (a, b)) in serial.iter().zip(&conc).enumerate() {
-        match b {
-            None => {
-                return Some(Violation {
-                    property: "C08".into(),
-                    class: "thread-panic".into(),
-                    detail: "a client thread panicked while the serial run did not".into(),
-                    client: ci,
-                    op_index: 0,
-                })
-            }
-            Some(b) => {
-                if let Some(i) = a.iter().zip(b).position(|(x, y)| x != y) {
+    for rep in 0..reps {
+        let conc: Vec<Option<Vec<u64>>> = std::thread::scope(|sc| {
+            let hs: Vec<_> = plan.clients.iter().map(|ops| sc.spawn(move || client_trace(ops, plan, preds))).collect();
+            hs.into_iter().map(|h| h.join().ok()).collect()
+        });
+        for (ci, (a, b)) in serial.iter().zip(&conc).enumerate() {
+            match b {
+                None => {
                     return Some(Violation {
                         property: "C08".into(),
-                        class: format!("thread-result-mismatch@{}", plan.clients[ci][i].kind()),
-                        detail: "concurrent result differs from serial result".into(),
+                        class: "thread-panic".into(),
+                        detail: format!("repetition {rep}: a client thread panicked while the serial run did not"),
                         client: ci,
-                        op_index: i,
-                    });
+                        op_index: 0,
+                    })
+                }
+                Some(b) => {
+                    if let Some(i) = a.iter().zip(b).position(|(x, y)| x != y) {
+                        return Some(Violation {
+                            property: "C08".into(),
+                            class: format!("thread-result-mismatch@{}", plan.clients[ci][i].kind()),
+                            detail: format!("repetition {rep}: concurrent result differs from serial result"),
+                            client: ci,
+                            op_index: i,
+                        });
+                    }
                 }
             }
         }
